@@ -728,3 +728,18 @@ def x12(cx: Cx, ob: Ob) -> None:
     from ..rules import package_lints
 
     package_lints(cx, ob, {'api.py'})
+
+
+@obligation("C13-X4", "the strict constructor rejects exactly the record sets in which a name is claimed twice: both duplicate detectors compare by exact equality over all pairs, URI clashes first (shared with C04) - a converter the property says is valid must not be refused with an undocumented DuplicatePrefixes", floor=4)
+def x4(cx: Cx, ob: Ob) -> None:
+    from .c04 import d1 as c04_order, d2 as c04_matrix
+
+    c04_order(cx, ob)
+    c04_matrix(cx, ob)
+
+
+@obligation("C13-X19", "the Record validators reject only a canonical value among the synonyms of ITS OWN side (shared with C04-D3): a string used as CURIE prefix and as URI prefix of one record is legal, so every loader accepts what upgrade_prefix_map / the priority and reverse maps can denote", floor=3)
+def x19(cx: Cx, ob: Ob) -> None:
+    from .c04 import d3 as validators
+
+    validators(cx, ob)
